@@ -610,14 +610,38 @@ func (cc *Conn) Context() context.Context {
 //
 // The loop that reads received messages is handed over first (as doInternal does), so that Ping can be
 // called from a handler: the pong, and everything queued before it, is processed while Ping waits.
+//
+// The ping is written under ctx, so a write that cannot proceed (e.g. an unanswered DTLS handshake) ends with ctx.
 func (cc *Conn) Ping(ctx context.Context) error {
 	cc.receivedMessageReader.TryToReplaceLoop()
-	return cc.Client.Ping(ctx)
+	resp := make(chan struct{}, 1)
+	cancel, err := cc.asyncPing(ctx, func() {
+		select {
+		case resp <- struct{}{}:
+		default:
+		}
+	})
+	if err != nil {
+		return err
+	}
+	defer cancel()
+	select {
+	case <-resp:
+		return nil
+	case <-ctx.Done():
+		return ctx.Err()
+	case <-cc.Context().Done():
+		return fmt.Errorf("connection was closed: %w", cc.Context().Err())
+	}
 }
 
 // AsyncPing sends ping and receivedPong will be called when pong arrives. It returns cancellation of ping operation.
 func (cc *Conn) AsyncPing(receivedPong func()) (func(), error) {
-	req := cc.AcquireMessage(cc.Context())
+	return cc.asyncPing(cc.Context(), receivedPong)
+}
+
+func (cc *Conn) asyncPing(ctx context.Context, receivedPong func()) (func(), error) {
+	req := cc.AcquireMessage(ctx)
 	req.SetType(message.Confirmable)
 	req.SetCode(codes.Empty)
 	mid := cc.GetMessageID()
